@@ -122,6 +122,7 @@ class Report:
         self.selftest_fail = []           # model_spec False
         self.known_hits = {}              # finding id -> count
         self.runtime_failures = []        # (what, desc)
+        self.harness_crash = None         # traceback of an exception outside every guarded call (see run_check)
         self.notes = {}
         self.violation_lines = []
         self.checker_cmd = ""
@@ -185,7 +186,13 @@ def judge_cases(prop, cases, rep, relabel=True):
     again = []
     for c, r in zip(cases, replies):
         try:
-            v = prop.interpret(wire.dec(r), c)
+            if r.startswith("(bad-op"):
+                # the driver could not read the request: the outcome the implementation produced has a form the
+                # model's parser has no place for (never on the unchanged tree).  A disagreement without a model
+                # outcome; whether it is a violation is for the other cases to say (else no-failing-input-found)
+                v = Verdict("(the driver could not parse the implementation's outcome)", None, None, {"reply": r[:200]})
+            else:
+                v = prop.interpret(wire.dec(r), c)
         except Exception as ex:  # malformed reply = harness/driver bug
             raise L.LeanFailure(f"cannot interpret driver reply {r[:300]!r} for {json.dumps(c.desc)[:300]}: {ex}")
         if relabel and (v.impl_spec is False or v.model != c.impl):
@@ -287,6 +294,14 @@ def decide(prop, rep):
         path = write_replay(prop, "runtime-check", None, None, {"what": what, "desc": desc})
         lines.append(f"VIOLATION property={prop.pid} replay={path}")
         exit_code = 1
+    if exit_code == 0 and rep.harness_crash:
+        path = write_replay(prop, "broken-correspondence", None, None,
+                            {"theorem_or_obligation": "correspondence harness of " + prop.pid + " (could not drive the "
+                                                      "code under test)",
+                             "why": rep.harness_crash[-3000:], "searched_cases": rep.evaluations,
+                             "note": "no input was found on which the implementation violates the specification"})
+        lines.append(f"VIOLATION property={prop.pid} replay={path} no-failing-input-found")
+        exit_code = 1
     if exit_code == 0:
         # nothing fails the specification; is the property still *shown* to hold?
         unknown_dis = [(c, v) for c, v in rep.disagreements if not any(
@@ -369,12 +384,13 @@ def run_check(prop, tier, seed, replay=None):
                 c.origin = "replay"
                 cases.append(c)
         else:
+          batch = []
+          try:
             for fn, desc in corpus_descs(prop.pid):
                 c = prop.case_from_desc(desc["desc"] if "desc" in desc else desc)
                 c.origin = "corpus:" + fn
                 c.tags.append("corpus")
                 cases.append(c)
-            batch = []
             # a soft wall-clock budget for generating cases (VERIF_BUDGET_S; default 150 s quick, 540 s thorough,
             # well above what a run takes on this sandbox): on a loaded machine the run ends in bounded time with
             # what it explored so far, and says so in the evidence
@@ -395,6 +411,15 @@ def run_check(prop, tier, seed, replay=None):
                 # refused to hold was skipped by the generator - which would hide a grid that refuses what it should hold
                 rep.runtime_failure("real code: the grid refused to hold %d world description(s) that are legal by "
                                     "construction" % gw.STATS["illegal"], None)
+          except L.LeanFailure:
+            raise
+          except Exception:  # noqa: BLE001
+            # the harness could not drive the code under test (an exception outside every guarded call: the real
+            # objects no longer have the shape the correspondence relies on).  On the unchanged tree this never
+            # happens; on a changed tree the correspondence is BROKEN: what was collected so far is still judged, and
+            # if no failing input turns up the run ends with `VIOLATION ... no-failing-input-found` naming this crash
+            rep.harness_crash = traceback.format_exc()
+            cases += batch
         judge_cases(prop, cases, rep)
         lines, code = decide(prop, rep)
         write_evidence(prop, rep, code)
